@@ -11,3 +11,21 @@ type (
 )
 
 func NewCond(l Locker) *Cond { return kern.NewCond(l) }
+
+// Once is sync.Once over the kernel's mutex: a second caller that arrives while
+// the first one is parked inside f (at a yield point of the simulation) blocks
+// in the kernel, not on a runtime mutex - which synctest does not count as a
+// durable block, so the scheduler would wait for it for ever.
+type Once struct {
+	m    Mutex
+	done bool
+}
+
+func (o *Once) Do(f func()) {
+	o.m.Lock()
+	defer o.m.Unlock()
+	if !o.done {
+		defer func() { o.done = true }()
+		f()
+	}
+}
